@@ -325,6 +325,31 @@ func ruleRespMatch(c *RC) *RuleResult {
 			}
 		}
 	}
+	// the purge runs on every path that stores the proposal (a later quorum test may be reached from another entry,
+	// e.g. when the last missing transaction arrives)
+	r.Sites++
+	{
+		bad := ""
+		for _, e := range c.exitsOf(reqStore.Fn) {
+			if lastIndex(e.Log, "write:ctx.PreparationPayloads") < 0 {
+				continue // this path does not store the proposal itself
+			}
+			has := false
+			for _, ev := range evs {
+				if e.Events[ev] {
+					has = true
+				}
+			}
+			if !has {
+				bad = "{" + strings.Join(e.Trail, "; ") + "}"
+			}
+		}
+		if bad == "" {
+			r.ok(reqStore.Fn.Name + ": every path that stores the proposal purges mismatching responses")
+		} else {
+			r.fail(reqStore.Fn.Name+"/purge-on-store", c.Prog.Pos(reqStore.Node), "the proposal is stored without purging early responses that name another proposal on path "+bad)
+		}
+	}
 	// every quorum-check call in the proposal receiver after the store has the purge event
 	okAll := true
 	for _, s := range c.A.FnSites[reqStore.Fn] {
